@@ -387,6 +387,20 @@ class FortranEngine:
         if errors not in self._ERROR_OPTIONS:
             raise ValueError(f'Invalid `errors` argument: {errors}')
 
+        # Error if the period at `t` cannot accommodate the model's lags and
+        # leads: check here (as well as in the Fortran code, below) to reject
+        # the call before copying any values by `offset`
+        t_position = t
+        if t_position < 0:
+            t_position += len(self.span)
+
+        if t_position < self.lags or t_position > len(self.span) - 1 - self.leads:
+            raise IndexError(
+                f'Position `t` ({t}) cannot accommodate the lags ({self.lags}) '
+                f'and leads ({self.leads}) of the current model instance, '
+                f'which has {len(self.span)} period(s) in its span'
+            )
+
         # Optionally copy initial values from another period
         if offset:
             t_check = t
